@@ -1,4 +1,4 @@
-from checks import mibcompile, oidindex, atomicwrite, searcher, readerlookup, history, oidtree
+from checks import mibcompile, oidindex, atomicwrite, searcher, readerlookup, history, oidtree, decls
 
 RULE_MC = ('scenario = terminal state of MibCompile.tla exported by TLC (request x lazily chosen answers of every '
            'component x options); non-trivial = at least one component answered with a failure / fresh / borrow; '
@@ -53,3 +53,6 @@ REGISTRY['C12'] = {'run': history.run, 'replay': history.replay, 'finish': {
 
 REGISTRY['C01'] = {'run': oidtree.run, 'replay': oidtree.replay, 'finish': {
     'rule': 'scenario = reachable state of OidTree.tla (modules x parent choice x root spelling x sub-identifier spelling x declaration kind x insertion position); non-trivial = at least two declarations; distinct by (nodes, declaration order)', 'exhaustive': False}}
+
+REGISTRY['C03'] = {'run': decls.run, 'replay': decls.replay, 'finish': {
+    'rule': 'scenario = reachable state of Decls.tla (declaration list over all clause kinds x status x access x units x revision lists x insertion positions); non-trivial = at least two declarations; distinct by attribute list', 'exhaustive': False}}
